@@ -39,7 +39,7 @@ func (e *C05) ID() string      { return "C05" }
 func (e *C05) Level() string   { return "exploration" }
 func (e *C05) NeedsRace() bool { return true }
 func (e *C05) Rule() string {
-	return "each case is one round in a -race build: N in {2,8,16,64} goroutines are released by a barrier under GOMAXPROCS in {1,2,4,16,32}; each performs 3-10 seeded calls on its own reader/image drawn from: every decode/scan/parse/sniff entry point on sample and generated files of every container (also truncated and structure-mutated ones: error paths), TIFFs carrying fresh OffsetTime strings (distinct offsets, and equal offsets spelled differently such as +00:00/-00:00, +05:00/+04:60) so that several calls miss the zone cache at once (the cache and all pools are reset before the round), the four perceptual hashes, NewAHash and EncodeBlurHashFast on 64x64/256x256 images of four kinds. Readers yield (runtime.Gosched or a microsecond sleep) at seeded Read calls, the natural suspension points of this library. Oracles: the Go race detector (reports parsed from its log, de-duplicated by the innermost imagemeta frame pair; a report with no imagemeta frame is the harness's own and makes the run inconclusive); every call's canonical observation must equal the observation of the same call run alone on pristine state (computed sequentially in the same binary, after the round, so that nothing is warmed up before its first concurrent use); a panic is a crash; a round in which no call completes for 120 s while the process is CPU-idle is a deadlock. SetLogger is never called while calls are in flight (configuration is outside the property); a quarter of the rounds set trace-level loggers with a discarding writer before the round starts, so that the formatting code behind the log statements also runs concurrently. Non-trivial: a round with >= 2 calls overlapping in time; distinct = distinct overlap signatures (multiset of call kinds in flight when a call starts, from one atomic event sequence at the client boundary)."
+	return "each case is one round in a -race build: N in {2,8,16,64} goroutines are released by a barrier under GOMAXPROCS in {1,2,4,16,32}; each performs 3-10 seeded calls on its own reader/image drawn from: every decode/scan/parse/sniff entry point on sample and generated files of every container (also truncated and structure-mutated ones: error paths), TIFFs carrying fresh OffsetTime strings (distinct offsets, and equal offsets spelled differently such as +00:00/-00:00, +05:00/+04:60) so that several calls miss the zone cache at once (the cache and all pools are reset before the round; in a quarter of the rounds nearly every call carries three offsets out of 1800, so that the cache passes its capacity of 256 several times within the round), the four perceptual hashes, NewAHash and EncodeBlurHashFast on 64x64/256x256 images of four kinds. Readers yield (runtime.Gosched or a microsecond sleep) at seeded Read calls, the natural suspension points of this library. A third of the cases also start a cold-start burst: a fresh process of the same race build in which 8 goroutines, released together, each make the same kind of call (17 kinds: gray conversions, hashes, kernels, blurhash, decode, parse, XMP, tag names, sniffing, CR3 preview) on an input of their own as the very first library calls of that process, then repeat them sequentially - lazily initialised state meets concurrency in every burst. Oracles: the Go race detector (reports parsed from its log, de-duplicated by the innermost imagemeta frame pair; a report with no imagemeta frame is the harness's own and makes the run inconclusive); every call's canonical observation must equal the observation of the same call run alone on pristine state (computed sequentially in the same binary, after the round, so that nothing is warmed up before its first concurrent use); a panic is a crash; a round in which no call completes for 120 s while the process is CPU-idle is a deadlock. SetLogger is never called while calls are in flight (configuration is outside the property); a quarter of the rounds set trace-level loggers with a discarding writer before the round starts, so that the formatting code behind the log statements also runs concurrently. Non-trivial: a round with >= 2 calls overlapping in time; distinct = distinct overlap signatures (multiset of call kinds in flight when a call starts, from one atomic event sequence at the client boundary)."
 }
 func (e *C05) Assumptions() []string {
 	return []string{
@@ -184,7 +184,15 @@ func c05Zone(r *core.Rng) string {
 
 func (e *C05) mkCall(r *core.Rng, round int) *c05call {
 	p := e.pop
-	switch k := r.Intn(10); {
+	// zone-flood rounds (the larger ones, a quarter of all): almost every call decodes a TIFF with
+	// three offsets out of 1800, so that the process-wide zone cache passes its capacity (256)
+	// several times while other goroutines look zones up
+	flood := round%8 >= 6
+	k := r.Intn(10)
+	if flood && k < 9 {
+		k = 5
+	}
+	switch {
 	case k < 4: // a file through one of its natural entries
 		fi := r.Intn(len(p.files))
 		if r.Chance(1, 3) {
@@ -216,6 +224,11 @@ func (e *C05) mkCall(r *core.Rng, round int) *c05call {
 		}}
 	case k < 7: // zone-cache traffic
 		zs := [3]string{c05Zone(r), c05Zone(r), c05Zone(r)}
+		if flood {
+			for i := range zs {
+				zs[i] = fmt.Sprintf("%s%02d:%02d", r.PickStr("+", "-"), r.Intn(15), r.Intn(60))
+			}
+		}
 		fs := r.U64()
 		data := c05ZoneFile(core.NewRng(fs), zs)
 		name := r.PickStr("Decode", "exif2.Parse", "DecodeTiff")
@@ -321,6 +334,10 @@ func (e *C05) Run(c *core.Ctx, idx int) {
 		if len(e.golden) > 20000 { // bound the cache (after this round's goldens were taken from it)
 			e.golden = map[string]string{}
 		}
+	}
+	if idx%3 == 1 {
+		// a cold-start burst in a process of its own (race build, same report log)
+		coldBurst(c, BurstKinds[(idx/3)%len(BurstKinds)], c.Seed*1000+uint64(idx))
 	}
 	// the round
 	resetAll()
